@@ -33,7 +33,8 @@ Enc(s, T, v) == CASE s = "DER" -> DER(Env, T, v)
 
 Slots == 1..3
 NoObj == [st |-> "none"]
-Obj(v) == [st |-> "val", v |-> v]
+Obj(v) == [st |-> "val", v |-> v, sess |-> TRUE]      \* holds the session's value
+ObjV(v) == [st |-> "val", v |-> v, sess |-> FALSE]    \* holds some other (possibly invalid) value
 NoWire == <<-1>>
 
 VARIABLES sc,      \* the session's scenario: [ty, val, plan]
@@ -61,6 +62,8 @@ OpBuild(slot) == [a |-> "Build", slot |-> slot]
 \* "defaults" DEFAULT components stored explicitly, "noise" garbage in the unused bits of a
 \* BIT STRING, "true" a non-canonical TRUE.  The abstract value is the same by definition.
 OpBuildRep(slot, rep) == [a |-> "BuildRep", slot |-> slot, rep |-> rep]
+OpBuildVal(slot, val) == [a |-> "BuildVal", slot |-> slot, val |-> val]   \* a structure holding val (maybe invalid)
+OpCheck(slot) == [a |-> "Check", slot |-> slot]                           \* asn_check_constraints, all buffer sizes
 OpEncode(slot, syn) == [a |-> "Encode", slot |-> slot, syn |-> syn]
 OpDecode(slot, syn) == [a |-> "Decode", slot |-> slot, syn |-> syn]     \* decodes wire[syn]
 OpCompare(s1, s2) == [a |-> "Compare", s1 |-> s1, s2 |-> s2]
@@ -121,6 +124,8 @@ Step(obs) == /\ pc <= Len(sc.plan)
         /\ LET op == sc.plan[pc] IN
              CASE op.a \in {"Build", "BuildRep"} -> Build(op)
                [] op.a = "BuildRep" -> Build(op)
+               [] op.a = "BuildVal" -> obj' = [obj EXCEPT ![op.slot] = ObjV(op.val)] /\ UNCHANGED <<wire, dec>>
+               [] op.a = "Check" -> obj[op.slot].st = "val" /\ UNCHANGED <<obj, wire, dec>>
                [] op.a = "Encode" -> Encode(op, obs.bytes)
                [] op.a = "DecodeLit" -> DecodeLit(op)
                [] op.a = "StartDecode" -> StartDecode(op)
@@ -151,6 +156,26 @@ Faults(op, ev) ==
               \cup When(ev.size # Len(wire[op.syn]), "size-differs")
               \cup (IF ~Has(ev, "val") \/ ~ev.wf THEN {"decoded-malformed"}
                     ELSE When(~SessVal(ev.val), "value-differs"))
+    [] op.a = "BuildVal" ->
+         IF ~ev.ok THEN {"build-failed"}
+         ELSE IF ~ev.wf THEN {"build-projection-malformed"}
+         ELSE When(~SameValue(RawEnv, TypeOf(sc), ev.val, op.val), "build-projection-differs")
+    [] op.a = "Check" ->
+         \* C08: 0 iff every constraint at every depth holds; on failure a bounded, terminated
+         \* message naming a type, for every buffer size (runs: one entry per size tried)
+         IF obj[op.slot].st # "val" THEN {"no-object"}
+         ELSE LET ok == Valid(RawEnv, TypeOf(sc), obj[op.slot].v) IN
+              When(ok /\ ev.ret # 0, "valid-rejected")
+              \cup When(~ok /\ ev.ret = 0, "invalid-accepted")
+              \cup When(ev.ret # 0 /\ ev.ret # -1, "bad-return")
+              \cup (IF ev.ret = 0 THEN {}
+                    ELSE When(\E i \in DOMAIN ev.runs : ev.runs[i].ret # ev.ret, "result-depends-on-buffer")
+                         \cup When(\E i \in DOMAIN ev.runs : ~ev.runs[i].canary, "message-overruns-buffer")
+                         \cup When(\E i \in DOMAIN ev.runs : ev.runs[i].bufsize > 0 /\ ~ev.runs[i].terminated, "message-not-terminated")
+                         \cup When(\E i \in DOMAIN ev.runs : ev.runs[i].bufsize > 0 /\ ev.runs[i].errlen >= ev.runs[i].bufsize, "errlen-exceeds-buffer")
+                         \cup When(\E i \in DOMAIN ev.runs : ev.runs[i].bufsize > 0 /\ ev.runs[i].errlen # ev.runs[i].msglen, "errlen-is-not-message-length")
+                         \cup When(\E i \in DOMAIN ev.runs : ~ev.runs[i].prefix, "message-not-a-prefix")
+                         \cup When(~ev.named, "message-names-no-type"))
     [] op.a = "DecodeLit" ->
          IF ev.rc # "OK" THEN {"rc-not-ok"}
          ELSE When(ev.consumed # Len(op.bytes), "consumed-differs")
@@ -193,7 +218,7 @@ RepApplies(T0, v, rep) ==
     [] OTHER -> FALSE
 
 \* ---- invariants (the properties, stated on the model) ----------------------
-RoundTrip == \A i \in Slots : obj[i].st = "val" => SameValue(RawEnv, TypeOf(sc), obj[i].v, sc.val)
+RoundTrip == \A i \in Slots : obj[i].st = "val" /\ obj[i].sess => SameValue(RawEnv, TypeOf(sc), obj[i].v, sc.val)
 \* C05 on the model: a decoding session never runs ahead of its stream, and a finished one
 \* has consumed exactly the stream
 DecSound == /\ dec.pos <= Len(dec.enc)
